@@ -18,6 +18,7 @@ import H263V.Lemmas.PlusPicture
 import H263V.Lemmas.IdctSpec
 import H263V.Lemmas.ReconSpec
 import H263V.Lemmas.LevelArrays
+import H263V.Lemmas.SampleErr
 namespace H263V.Thm.C02
 open H263V H263V.Gather H263V.Spec.Vlc
 
@@ -144,6 +145,23 @@ theorem intra_picture_samples (types : Array MbType) (ref : Option DecPic) (mvs 
     (out.cb.size = pic.cb.size ∧ ∀ k, out.cb.getD k 0 = idctVal cbLv m pic.chromaSpr pic.cb.size k (pic.cb.getD k 0)) ∧
     (out.cr.size = pic.cr.size ∧ ∀ k, out.cr.getD k 0 = idctVal crLv m pic.chromaSpr pic.cr.size k (pic.cr.getD k 0)) :=
   reconstruct_intra types ref mvs m w pic out lumaLv cbLv crLv hw hc hm hall h
+
+open H263V.State H263V.Lemmas.SampleErr in
+/-- **The statement of C02, sample by sample.**  For a picture without INTER macroblocks whose level arrays hold blocks with
+entries of magnitude at most 2048 (`AllBounded`: what dequantisation and INTRADC reconstruction produce, C11), every sample of every
+plane of the reconstructed picture differs by at most one from the H.263 reconstruction `idealVal`: clip to 0..255 of the plane's
+initial value (0 in a fresh picture) plus the REFERENCE inverse transform — exact arithmetic, nearest integer, clipped to -256..255 —
+of the 64 dequantised, zig-zag-placed levels of the 8x8 block covering the sample (`expand`, C11), at the sample's offset in the
+block.  Composition of `intra_picture_samples` with the peak-error theorem for every block shape (C10, error analysis). -/
+theorem intra_samples_within_one_of_ideal (types : Array MbType) (ref : Option DecPic) (mvs : Array Mv.Mv4) (m w : Nat)
+    (pic out : DecPic) (lumaLv cbLv crLv : Array Rle.Dct) (hw : 1 ≤ w) (hc : 1 ≤ pic.chromaSpr) (hm : m ≠ 0)
+    (hall : ∀ i, i < types.size → (types.getD i .inter).isInter = false)
+    (hl : AllBounded lumaLv) (hb : AllBounded cbLv) (hr : AllBounded crLv)
+    (h : reconstruct types ref mvs m w pic lumaLv cbLv crLv = .ok out) :
+    (∀ k, ((out.luma.getD k 0 : Int) - (idealVal lumaLv (m * 2) w pic.luma.size k (pic.luma.getD k 0) : Int)).natAbs ≤ 1) ∧
+    (∀ k, ((out.cb.getD k 0 : Int) - (idealVal cbLv m pic.chromaSpr pic.cb.size k (pic.cb.getD k 0) : Int)).natAbs ≤ 1) ∧
+    (∀ k, ((out.cr.getD k 0 : Int) - (idealVal crLv m pic.chromaSpr pic.cr.size k (pic.cr.getD k 0) : Int)).natAbs ≤ 1) :=
+  intra_close types ref mvs m w pic out lumaLv cbLv crLv hw hc hm hall hl hb hr h
 
 open H263V.Lemmas.RoundTrip H263V.Spec.Syntax in
 /-- Block layer on its own: `decode_block` returns exactly the INTRADC code and the (run, level) events written, in order,
